@@ -154,6 +154,13 @@ theorem rps_track (st : State) (si : Nat) (d : Int) (b : Bool) (tj : Nat) :
     · exact Or.inl rfl
   · exact Or.inl rfl
 
+theorem rps_tracks_length (st : State) (si : Nat) (d : Int) (b : Bool) :
+    (rotatePartsStream st si d b).tracks.length = st.tracks.length := by
+  rw [rotatePartsStream_eq]
+  split
+  · exact fpState_tracks_length st si
+  · rfl
+
 theorem rps_track_some (st : State) (si : Nat) (d : Int) (b : Bool) (tj : Nat) (part seg)
     (hp : (st.stream si).nextPart = some part) (hs : (st.stream si).nextSegment = some seg) :
     (rotatePartsStream st si d b).track tj =
@@ -339,6 +346,17 @@ theorem rss_sameCtl (st : State) (si : Nat) (d n : Int) (f : Bool) : SameCtl st 
   split
   · exact rsPre_sameCtl ..
   · exact (rsPre_sameCtl ..).trans (rsCore_sameCtl ..)
+
+theorem rss_tracks_length (st : State) (si : Nat) (d n : Int) (f : Bool) :
+    (rotateSegmentsStream st si d n f).tracks.length = st.tracks.length := by
+  have h : (rsPre st si d).tracks.length = st.tracks.length := by
+    unfold rsPre; split
+    · exact rps_tracks_length ..
+    · rfl
+  rw [rotateSegmentsStream_eq]
+  split
+  · exact h
+  · exact h
 
 theorem rss_track (st : State) (si : Nat) (d n : Int) (f : Bool) (tj : Nat) :
     (rotateSegmentsStream st si d n f).track tj = (rsPre st si d).track tj := by
